@@ -72,6 +72,9 @@ def main():
             # the patch was made against an earlier HEAD: try a three-way merge before giving up
             sh(["git", "-C", REPO, "checkout", "--", "."])
             ap = sh(["git", "-C", REPO, "apply", "--3way", patch])
+            if ap.returncode != 0:
+                # a conflicted three-way merge leaves unmerged paths behind: clear them
+                sh(["git", "-C", REPO, "reset", "-q", "HEAD", "--", "."])
         if ap.returncode != 0:
             print(f"{bid}: patch does not apply: {ap.stderr[:300]}")
             results[bid] = {"applied": False, "error": ap.stderr[:500]}
